@@ -27,13 +27,19 @@ from harness.common import TranslateError, ast_digest, src_text
 # Abstract values of SM/AtomicExit.v.  The translator only transliterates; the symbolic execution (which operation
 # follows which result, what a `finally` does, whether an exception is swallowed) is done by `exit_tree` in the kernel.
 SLOTS = {'self.temp': 0, 'self._temp_name': 1, 'self.filename': 2}
-CLASS_ALL = {'BaseException', 'Exception'}
+CLASS_ALL = {'BaseException'}
+CLASS_EXC = {'Exception'}
 CLASS_OSERROR = {'OSError', 'IOError', 'EnvironmentError'}
 CLASS_NOENT = {'FileNotFoundError'}
-# classes that match neither the injected OSError(EIO), nor FileNotFoundError, nor an AttributeError / explicit raise
-CLASS_NEVER = {'FileExistsError', 'PermissionError', 'IsADirectoryError', 'NotADirectoryError', 'InterruptedError',
-               'BlockingIOError', 'TimeoutError', 'KeyError', 'IndexError', 'ValueError', 'TypeError', 'KeyboardInterrupt',
-               'StopIteration', 'UnicodeError', 'ZeroDivisionError'}
+# named subclasses of OSError other than FileNotFoundError: `KSub <index>` (SM/AtomicRetry.v specialises the program to
+# runs in which the refused operations raise one of them: run class `RSub <index>`)
+SUBCLASSES = ['PermissionError', 'FileExistsError', 'IsADirectoryError', 'NotADirectoryError', 'InterruptedError',
+              'BlockingIOError', 'TimeoutError', 'ConnectionError']
+KBD_INDEX = 1000        # `except KeyboardInterrupt`: KSub 1000 = kbd_index of SM/AtomicRetry.v (run class RKbd)
+# classes that match no refused operation of any run class, nor FileNotFoundError, nor an AttributeError / explicit raise
+CLASS_NEVER = {'KeyError', 'IndexError', 'ValueError', 'TypeError', 'StopIteration', 'UnicodeError', 'ZeroDivisionError',
+               'LookupError', 'ArithmeticError'}
+MAX_ROUNDS = 50         # `for _ in range(n)`: n is a literal; the kernel unrolls the loop
 
 
 # classes an explicit `raise` may name: none of them is (a base class of) anything in the handler tables above
@@ -49,7 +55,9 @@ def _key(node: ast.AST) -> str | None:
 
 
 class _ExitTr:
-    def __init__(self, fn: ast.FunctionDef) -> None:
+    def __init__(self, fn: ast.FunctionDef, time_aliases: frozenset[str] = frozenset({'time'})) -> None:
+        self.time_aliases = time_aliases
+        self.loop_depth = 0
         params = [a.arg for a in fn.args.args]
         if len(params) != 4 or fn.args.vararg or fn.args.kwarg or fn.args.kwonlyargs:
             raise TranslateError('AtomicWriter.__exit__: expected (self, exc_type, exc_value, tback)')
@@ -69,6 +77,8 @@ class _ExitTr:
         self.names = {v: k for k, v in self.slots.items()}
 
     def slot(self, key: str, create: bool, node: ast.AST) -> int:
+        if key in getattr(self, 'loop_vars', ()):
+            raise TranslateError(f'{self.where}: the loop variable `{key}` is used as a value (line {node.lineno})')
         if key not in self.slots:
             if not create:
                 raise TranslateError(f'{self.where}: `{key}` is read but never assigned before (line {node.lineno})')
@@ -89,6 +99,14 @@ class _ExitTr:
         k = _key(node)
         if k is not None:
             return f'(EV {self.slot(k, False, node)})'
+        # the path of an open file: X.name, Path(X.name), PurePath(X.name), os.fspath(X.name)
+        inner = node
+        if isinstance(node, ast.Call) and len(node.args) == 1 and not node.keywords and (
+                (isinstance(node.func, ast.Name) and node.func.id in ('Path', 'PurePath', 'str'))
+                or (isinstance(node.func, ast.Attribute) and node.func.attr == 'fspath')):
+            inner = node.args[0]
+        if isinstance(inner, ast.Attribute) and inner.attr == 'name' and _key(inner.value) is not None:
+            return f'(ENameOf {self.expr(inner.value)})'
         raise TranslateError(f'{self.where}: unsupported value `{ast.unparse(node)}` (line {node.lineno})')
 
     def test(self, node: ast.AST) -> str:
@@ -165,6 +183,12 @@ class _ExitTr:
                 raise TranslateError(f'{self.where}: unsupported exception class `{ast.unparse(e)}`')
             if e.id in CLASS_ALL:
                 out.append('KAll')
+            elif e.id in CLASS_EXC:
+                out.append('KExc')
+            elif e.id in SUBCLASSES:
+                out.append(f'KSub {SUBCLASSES.index(e.id)}')
+            elif e.id == 'KeyboardInterrupt':
+                out.append(f'KSub {KBD_INDEX}')
             elif e.id in CLASS_OSERROR:
                 out.append('KOSError')
             elif e.id in CLASS_NOENT:
@@ -213,8 +237,36 @@ class _ExitTr:
             if isinstance(st.value, ast.Constant):
                 return 'SSkip'
             if isinstance(st.value, ast.Call):
-                return self.call(st.value)
+                c = st.value
+                # time.sleep(<number>): no file-system effect (between two attempts of a retry loop)
+                if isinstance(c.func, ast.Attribute) and c.func.attr == 'sleep' and isinstance(c.func.value, ast.Name) \
+                        and c.func.value.id in self.time_aliases and len(c.args) == 1 and not c.keywords \
+                        and isinstance(c.args[0], ast.Constant) and isinstance(c.args[0].value, (int, float)) \
+                        and not isinstance(c.args[0].value, bool):
+                    return 'SSkip'
+                return self.call(c)
             raise TranslateError(f'{self.where}: unsupported expression statement (line {st.lineno})')
+        if isinstance(st, ast.For):
+            # for <name> in range(<literal n>): body [else: orelse] — the loop variable holds an int (outside the
+            # abstract values): it gets no slot, so reading it anywhere fails closed ("read but never assigned")
+            it = st.iter
+            if not (isinstance(st.target, ast.Name) and isinstance(it, ast.Call) and isinstance(it.func, ast.Name)
+                    and it.func.id == 'range' and len(it.args) == 1 and not it.keywords
+                    and isinstance(it.args[0], ast.Constant) and isinstance(it.args[0].value, int)
+                    and not isinstance(it.args[0].value, bool) and 0 <= it.args[0].value <= MAX_ROUNDS):
+                raise TranslateError(f'{self.where}: unsupported loop `for {ast.unparse(st.target)} in '
+                                     f'{ast.unparse(st.iter)}` (line {st.lineno}): only `for <name> in range(<literal>)`')
+            if st.target.id in self.slots:
+                raise TranslateError(f'{self.where}: the loop variable `{st.target.id}` is also used as a value')
+            self.loop_vars = getattr(self, 'loop_vars', set()) | {st.target.id}
+            self.loop_depth += 1
+            body = self.block(st.body)
+            self.loop_depth -= 1
+            return f'(SFor {it.args[0].value} {body} {self.block(st.orelse)})'
+        if isinstance(st, (ast.Break, ast.Continue)):
+            if self.loop_depth == 0:
+                raise TranslateError(f'{self.where}: break/continue outside a loop (line {st.lineno})')
+            return 'SBreak' if isinstance(st, ast.Break) else 'SContinue'
         if isinstance(st, ast.Assign):
             if len(st.targets) != 1:
                 raise TranslateError(f'{self.where}: chained assignment (line {st.lineno})')
@@ -273,10 +325,37 @@ def _exit_prog(fn: ast.FunctionDef) -> tuple[str, dict]:
     return prog, {str(k): v for k, v in sorted(tr.names.items())}
 
 
-def _exit_prog_attrs(fn: ast.FunctionDef) -> tuple[str, dict, dict[str, int]]:
-    tr = _ExitTr(fn)
+def _entry_prologue(mk: ast.FunctionDef) -> list[ast.stmt]:
+    """The statements of make_tempfile before it creates the folder / enters the temp-name loop."""
+    out: list[ast.stmt] = []
+    for st in mk.body:
+        if isinstance(st, ast.Expr) and isinstance(st.value, ast.Constant):
+            continue
+        if isinstance(st, (ast.For, ast.While)) or any(
+                isinstance(c, ast.Call) and isinstance(c.func, ast.Attribute) and c.func.attr in ('mkdir', 'makedirs')
+                for c in ast.walk(st)):
+            return out
+        out.append(st)
+    raise TranslateError('make_tempfile: neither a mkdir call nor the temp-name loop found')
+
+
+def _exit_prog_attrs(fn: ast.FunctionDef, time_aliases: frozenset[str] = frozenset({'time'}),
+                     prologue: list[ast.stmt] | None = None) -> tuple[str, dict, dict[str, int], str]:
+    tr = _ExitTr(fn, time_aliases)
+    # the attributes the entry prologue mentions get slots too (they are part of the object's state)
+    pro_fn = ast.Module(body=prologue or [], type_ignores=[])
+    for key in sorted(_self_attrs(pro_fn)):
+        if key not in tr.slots:
+            tr.slots[key] = tr.next
+            tr.names[tr.next] = key
+            tr.next += 1
+    tr.attr_slots = {k: v for k, v in tr.slots.items() if k.startswith('self.')}
     prog = tr.block(fn.body)
-    return prog, {str(k): v for k, v in sorted(tr.names.items())}, dict(tr.attr_slots)
+    tr.where = 'AtomicWriter.make_tempfile (before the temp-name loop)'
+    # the parameters and locals of __exit__ do not exist here
+    tr.slots = dict(tr.attr_slots)
+    pro = tr.block(prologue or [])
+    return prog, {str(k): v for k, v in sorted(tr.names.items())}, dict(tr.attr_slots), pro
 
 
 # ------------------------------------------------------------------------------------------- normalisation: helpers
@@ -360,7 +439,8 @@ def _ends(stmts: list[ast.stmt]) -> bool:
     return False
 
 
-def inline_helpers(fn: ast.FunctionDef, methods: dict[str, ast.FunctionDef], depth: int = 0) -> ast.FunctionDef:
+def inline_helpers(fn: ast.FunctionDef, methods: dict[str, ast.FunctionDef], depth: int = 0,
+                   modfuncs: dict[str, ast.FunctionDef] | None = None) -> ast.FunctionDef:
     """Replace `x = self.m(a, ..)`, `self.m(a, ..)` and `return self.m(a, ..)` (m an ordinary method of the same class,
     arguments plain names / attributes of self / constants) by the body of m, so that the analyses below see the same
     statements whether or not a piece of the function was extracted into a helper.  Anything that cannot be inlined
@@ -369,17 +449,26 @@ def inline_helpers(fn: ast.FunctionDef, methods: dict[str, ast.FunctionDef], dep
 
     def expand(call: ast.Call, sink, st: ast.stmt) -> list[ast.stmt] | None:
         f = call.func
-        if not (isinstance(f, ast.Attribute) and isinstance(f.value, ast.Name) and f.value.id == 'self'):
-            return None
-        m = methods.get(f.attr)
-        if m is None or f.attr in SPECIAL or m is fn:
+        if isinstance(f, ast.Name) and modfuncs and f.id in modfuncs:
+            # a plain function defined at module level (round 4): all its parameters are bound, `self` included
+            m, hname, skip = modfuncs[f.id], f.id, 0
+            if any(isinstance(x, ast.Name) and x.id == f.id and isinstance(x.ctx, ast.Store) for x in ast.walk(fn)):
+                return None       # the name is rebound locally
+        elif isinstance(f, ast.Attribute) and isinstance(f.value, ast.Name) and f.value.id == 'self':
+            m, hname, skip = methods.get(f.attr), f.attr, 1
+            if m is None or f.attr in SPECIAL or m is fn:
+                return None
+        else:
             return None
         if depth > 3:
-            raise TranslateError(f'{fn.name}: helper methods nested too deeply at `{f.attr}`')
+            raise TranslateError(f'{fn.name}: helper methods nested too deeply at `{hname}`')
         a = m.args
         if a.vararg or a.kwarg or a.kwonlyargs or a.posonlyargs or m.decorator_list:
             return None
-        names = [x.arg for x in a.args][1:]
+        if any(isinstance(x, (ast.Yield, ast.YieldFrom, ast.Global, ast.Nonlocal, ast.Lambda, ast.FunctionDef)) for b in m.body
+               for x in ast.walk(b)):
+            return None
+        names = [x.arg for x in a.args][skip:]
         defaults = dict(zip(reversed(names), reversed(a.defaults)))
         bound: dict[str, ast.expr] = {}
         for n, v in zip(names, call.args):
@@ -397,7 +486,7 @@ def inline_helpers(fn: ast.FunctionDef, methods: dict[str, ast.FunctionDef], dep
                 bound[n] = defaults[n]
         if not all(_simple_arg(v) for v in bound.values()):
             return None
-        inner = inline_helpers(m, methods, depth + 1)
+        inner = inline_helpers(m, methods, depth + 1, modfuncs)
         counter[0] += 1
         stores = {x.id for x in ast.walk(inner) if isinstance(x, ast.Name) and isinstance(x.ctx, ast.Store)}
         if stores & set(names):
@@ -405,7 +494,7 @@ def inline_helpers(fn: ast.FunctionDef, methods: dict[str, ast.FunctionDef], dep
         ren = {n: f'_inl{depth}_{counter[0]}_{n}' for n in stores}
         body = [s for s in inner.body if not (isinstance(s, ast.Expr) and isinstance(s.value, ast.Constant))]
         body = [_Subst(bound, ren).visit(_clone(s)) for s in body]
-        res = _tail(body, sink, f'{fn.name}: helper {f.attr}')
+        res = _tail(body, sink, f'{fn.name}: helper {hname}')
         for r in res:
             for x in ast.walk(r):
                 if not hasattr(x, 'lineno'):
@@ -528,22 +617,77 @@ def inline_locals(fn: ast.FunctionDef) -> ast.FunctionDef:
     return fn
 
 
+def while_to_for(fn: ast.FunctionDef) -> ast.FunctionDef:
+    """`i = <c>` ... `while True: i += 1; BODY`  ->  `for i in count(c + 1): BODY`, and
+    `i = <c>` ... `while True: BODY; i += 1` (no `continue` in BODY)  ->  `for i in count(c): BODY`,
+    when these are the only assignments to `i` in the function.  (With the increment at the top a `continue` goes on
+    with the next number, as in the for loop; with the increment at the bottom it would repeat the same number.)"""
+    fn = _clone(fn)
+
+    def rewrite(body: list[ast.stmt]) -> None:
+        for j, st in enumerate(body):
+            for field in ('body', 'orelse', 'finalbody'):
+                sub = getattr(st, field, None)
+                if isinstance(sub, list) and sub and isinstance(sub[0], ast.stmt):
+                    rewrite(sub)
+            if not (isinstance(st, ast.While) and isinstance(st.test, ast.Constant) and st.test.value in (True, 1)
+                    and not st.orelse and st.body):
+                continue
+            for pos in (0, -1):
+                inc = st.body[pos]
+                if not (isinstance(inc, ast.AugAssign) and isinstance(inc.op, ast.Add) and isinstance(inc.target, ast.Name)
+                        and isinstance(inc.value, ast.Constant) and inc.value.value == 1 and type(inc.value.value) is int):
+                    continue
+                var = inc.target.id
+                rest = st.body[1:] if pos == 0 else st.body[:-1]
+                if not rest or (pos == -1 and any(isinstance(x, ast.Continue) for b in rest for x in ast.walk(b))):
+                    continue
+                stores = [x for x in ast.walk(fn) if isinstance(x, ast.Name) and x.id == var
+                          and isinstance(x.ctx, (ast.Store, ast.Del))]
+                inits = [(k, b) for k, b in enumerate(body[:j]) if isinstance(b, ast.Assign) and len(b.targets) == 1
+                         and isinstance(b.targets[0], ast.Name) and b.targets[0].id == var
+                         and isinstance(b.value, ast.Constant) and type(b.value.value) is int]
+                if len(stores) != 2 or len(inits) != 1:
+                    continue
+                k, init = inits[0]
+                if any(isinstance(x, ast.Name) and x.id == var for b in body[k + 1:j] for x in ast.walk(b)):
+                    continue
+                start = init.value.value + (1 if pos == 0 else 0)
+                loop = ast.For(target=ast.Name(id=var, ctx=ast.Store()),
+                               iter=ast.Call(func=ast.Name(id='count', ctx=ast.Load()), args=[ast.Constant(value=start)], keywords=[]),
+                               body=rest, orelse=[], type_comment=None)
+                body[j] = ast.copy_location(loop, st)
+                body[k] = ast.copy_location(ast.Pass(), init)
+                break
+
+    rewrite(fn.body)
+    ast.fix_missing_locations(fn)
+    return fn
+
+
 def tmp_template(e: ast.AST, var: str) -> bool:
     """Is `e` the name "tmp_<var>" (decimal)?  f'tmp_{i}', 'tmp_' + str(i), 'tmp_%d' % i, 'tmp_{}'.format(i)."""
     is_var = lambda n: isinstance(n, ast.Name) and n.id == var
     if isinstance(e, ast.JoinedStr):
-        return (len(e.values) == 2 and isinstance(e.values[0], ast.Constant) and e.values[0].value == 'tmp_'
-                and isinstance(e.values[1], ast.FormattedValue) and is_var(e.values[1].value)
-                and e.values[1].format_spec is None and e.values[1].conversion == -1)
+        if not (len(e.values) == 2 and isinstance(e.values[0], ast.Constant) and e.values[0].value == 'tmp_'
+                and isinstance(e.values[1], ast.FormattedValue) and is_var(e.values[1].value)):
+            return False
+        fv = e.values[1]       # {i}, {i!s}, {i!r}, {i:d}, {i:}: the decimal digits of an int
+        spec = fv.format_spec
+        spec_ok = spec is None or (isinstance(spec, ast.JoinedStr) and (
+            not spec.values or (len(spec.values) == 1 and isinstance(spec.values[0], ast.Constant)
+                                and spec.values[0].value in ('', 'd'))))
+        return spec_ok and fv.conversion in (-1, ord('s'), ord('r')) and not (fv.conversion != -1 and spec is not None
+                                                                               and spec.values and spec.values[0].value == 'd')
     if isinstance(e, ast.BinOp) and isinstance(e.op, ast.Add):
         return (isinstance(e.left, ast.Constant) and e.left.value == 'tmp_' and isinstance(e.right, ast.Call)
-                and isinstance(e.right.func, ast.Name) and e.right.func.id == 'str' and len(e.right.args) == 1
-                and not e.right.keywords and is_var(e.right.args[0]))
+                and isinstance(e.right.func, ast.Name) and e.right.func.id in ('str', 'repr', 'format')
+                and len(e.right.args) == 1 and not e.right.keywords and is_var(e.right.args[0]))
     if isinstance(e, ast.BinOp) and isinstance(e.op, ast.Mod):
         r = e.right.elts[0] if isinstance(e.right, ast.Tuple) and len(e.right.elts) == 1 else e.right
         return isinstance(e.left, ast.Constant) and e.left.value in ('tmp_%d', 'tmp_%s', 'tmp_%i') and is_var(r)
     if isinstance(e, ast.Call) and isinstance(e.func, ast.Attribute) and e.func.attr == 'format':
-        return (isinstance(e.func.value, ast.Constant) and e.func.value.value in ('tmp_{}', 'tmp_{0}')
+        return (isinstance(e.func.value, ast.Constant) and e.func.value.value in ('tmp_{}', 'tmp_{0}', 'tmp_{:d}', 'tmp_{0:d}')
                 and len(e.args) == 1 and not e.keywords and is_var(e.args[0]))
     return False
 
@@ -561,6 +705,10 @@ def sibling_name(v: ast.AST) -> tuple[ast.AST, bool] | None:
             return v.args[0], False
     if isinstance(v, ast.BinOp) and isinstance(v.op, ast.Div) and is_parent(v.left):
         return v.right, False
+    # Path(self.filename.parent, X) / PurePath(..) / self.filename.parent.joinpath(X) are the same file
+    if isinstance(v, ast.Call) and isinstance(v.func, ast.Name) and v.func.id in ('Path', 'PurePath') and len(v.args) == 2 \
+            and not v.keywords and is_parent(v.args[0]):
+        return v.args[1], False
     return None
 
 
@@ -997,8 +1145,10 @@ def translate() -> tuple[str, dict]:
             raise TranslateError(f'AtomicWriter.{need} not found')
     raw_digests = {n: ast_digest(f) for n, f in fns.items()}
     # normalisation: calls of ordinary methods of the class are replaced by their bodies
+    modfuncs = {n.name: n for n in tree.body if isinstance(n, ast.FunctionDef)}
     for name in ('make_tempfile', '__enter__', '__exit__'):
-        fns[name] = inline_helpers(fns[name], fns)
+        fns[name] = inline_helpers(fns[name], fns, 0, modfuncs)
+    fns['make_tempfile'] = while_to_for(fns['make_tempfile'])
     # a call that could not be inlined hides code from the analyses of make_tempfile / __enter__ (an open with another
     # mode, an assignment to an attribute): fail closed.  (__exit__: every call is judged by _ExitTr.call.)
     mod_funcs = {n.name for n in tree.body if isinstance(n, (ast.FunctionDef, ast.AsyncFunctionDef))}
@@ -1015,7 +1165,11 @@ def translate() -> tuple[str, dict]:
                                      f'(line {c.lineno}): its body is not analysed')
     # ... and single-assignment locals of make_tempfile by their defining expressions
     fns['make_tempfile'] = inline_locals(fns['make_tempfile'])
-    prog, slot_names, attr_slots = _exit_prog_attrs(fns['__exit__'])
+    # names the module `time` is imported under (time.sleep between two attempts of a retry loop is no operation)
+    time_aliases = frozenset(a.asname or a.name for n in tree.body if isinstance(n, ast.Import) for a in n.names
+                             if a.name == 'time')
+    prog, slot_names, attr_slots, entry_prog = _exit_prog_attrs(fns['__exit__'], time_aliases,
+                                                                _entry_prologue(fns['make_tempfile']))
     tf = _tempfile_facts(fns['make_tempfile'])
     # __enter__ must create the temp file and hand out the temp handle
     if not _enter_ok(fns['__enter__']):
@@ -1028,7 +1182,7 @@ def translate() -> tuple[str, dict]:
     writes_ok = all(w[2] in ('handle', 'bytesio', 'deferred') for w in bsp['writes'])
     lines = [
         '(* GENERATED by translate/c12_atomic.py from src/srctools/__init__.py (AtomicWriter) and bsp.py. Do not edit. *)',
-        'From Coq Require Import List String.', 'From SV Require Import SM.AtomicWriter SM.AtomicExit SM.AtomicReuse.', 'Import ListNotations.',
+        'From Coq Require Import List String.', 'From SV Require Import SM.AtomicWriter SM.AtomicExit SM.AtomicReuse SM.AtomicRetry.', 'Import ListNotations.',
         'Open Scope string_scope.',
         '(* AtomicWriter.__exit__, statement by statement (slots: ' + ', '.join(f'{k}={v}' for k, v in slot_names.items()) + ') *)',
         f'Definition aw_exit_prog : xstmt :=\n  {prog}.',
@@ -1042,8 +1196,13 @@ def translate() -> tuple[str, dict]:
         f'     o_init := [{"; ".join(opt(v) for v in obj["init"])}];',
         f'     o_enter := [{"; ".join(f"({k}, {v})" for k, v in obj["enter"])}];',
         f'     o_const := [{"; ".join(map(str, obj["const"]))}] |}}.',
+        '(* what make_tempfile does before it creates the folder and enters the temp-name loop *)',
+        f'Definition aw_entry_prog : xstmt :=\n  {entry_prog}.',
         '(* the exit protocol of the first use of a fresh object *)',
         'Definition aw_proto : xproto := obj_proto aw_obj.',
+        '(* named subclasses of OSError a handler may name (KSub i / run class RSub i): ' + ', '.join(
+            f'{i}={n}' for i, n in enumerate(SUBCLASSES)) + ' *)',
+        f'Definition aw_nclasses : nat := {len(SUBCLASSES)}.',
         '(* the temp-name loop: first index, unbounded iterator (itertools.count), name template tmp_<i>, the',
         '   FileExistsError handler only passes, the loop is left only by the break after a successful open, the',
         '   destination itself is never used as its own temp file *)',
@@ -1069,8 +1228,8 @@ def translate() -> tuple[str, dict]:
         f'Definition bsp_save_handle_is_bytes : bool := {b(bsp["bytes_mode"])}.',
         '',
     ]
-    side = dict(exit_prog=prog, exit_slots=slot_names, tempfile=tf, bsp={k: v for k, v in bsp.items()},
-                digests=raw_digests, writes_ok=writes_ok, obj=obj)
+    side = dict(exit_prog=prog, entry_prog=entry_prog, exit_slots=slot_names, tempfile=tf, bsp={k: v for k, v in bsp.items()},
+                digests=raw_digests, writes_ok=writes_ok, obj=obj, subclasses=list(SUBCLASSES))
     return '\n'.join(lines), side
 
 
